@@ -640,7 +640,7 @@ pub fn run_history<V: Visitor>(h: &History, force_fault: bool, v: &mut V) -> Res
         FamId::Ed => go!(crate::keys::EdKey),
         FamId::CombinedSecp | FamId::CombinedEd => go!(crate::keys::CombKey),
         FamId::Var | FamId::Wide => go!(VarKey),
-        FamId::Tiny | FamId::Mid | FamId::Nano | FamId::Big | FamId::Clash => go!(crate::keys::TinyKey),
+        FamId::Tiny | FamId::Mid | FamId::Nano | FamId::Big | FamId::Clash | FamId::Null => go!(crate::keys::TinyKey),
     }
 }
 
@@ -747,6 +747,6 @@ pub fn run_blind(h: &History, upto: usize, order: u8) -> Result<Option<(Vec<Call
         FamId::Ed => run_blind_typed::<crate::keys::EdKey>(h, upto, order),
         FamId::CombinedSecp | FamId::CombinedEd => run_blind_typed::<crate::keys::CombKey>(h, upto, order),
         FamId::Var | FamId::Wide => run_blind_typed::<VarKey>(h, upto, order),
-        FamId::Tiny | FamId::Mid | FamId::Nano | FamId::Big | FamId::Clash => run_blind_typed::<crate::keys::TinyKey>(h, upto, order),
+        FamId::Tiny | FamId::Mid | FamId::Nano | FamId::Big | FamId::Clash | FamId::Null => run_blind_typed::<crate::keys::TinyKey>(h, upto, order),
     }
 }
